@@ -716,6 +716,18 @@ func runSweepOne(c *sweepCase, pair [2]string, plan []swSeg, out *Out, stats *St
 	mon.CheckChain(blocks, "after the schedule")
 	mon.CheckDerived(nd, blocks, rec.Universe, "after the schedule")
 	mon.CheckPool(nd.Pool.Transactions(), admitted, "after the schedule")
+	// without a sync round in the schedule nothing but a tick moves the tip, and a tick empties the pool:
+	// whatever is pooled afterwards was admitted against the new tip and is dated at or after it. A pooled
+	// transaction dated before the tip was judged against a tip that was already gone when it entered the
+	// pool; the next tick drops it as too old - an admitted transaction is lost.
+	if pair[0] != "U" && pair[1] != "U" && pair[0] != "R" && pair[1] != "R" {
+		tip := nd.Chain.LastBlockTimestamp()
+		for _, t := range nd.Pool.Transactions() {
+			if t.Timestamp() < tip {
+				mon.hit("C16", "admitted-into-the-past", fmt.Sprintf("after the schedule: the pooled transaction %s is dated %d, before the last block (%d): it was admitted against a tip that a tick had already replaced and will be dropped as too old", t.Id(), t.Timestamp(), tip))
+			}
+		}
+	}
 	for _, h := range held {
 		if now := h.ids(); now != h.was {
 			mon.hit("C16", "held-answer-changed", fmt.Sprintf("after the schedule: the %s handed out before it read [%s], now [%s] (a handler encoding it meanwhile sends a state that never existed)", h.what, h.was, now))
